@@ -96,7 +96,11 @@ func (p *gcpPicker) Pick(info balancer.PickInfo) (balancer.PickResult, error) {
 	callStarted := time.Now()
 	// define callback for post process once call is done
 	callback := func(info balancer.DoneInfo) {
+		// The stream counters change only under pickMu: a pick that compares them sees
+		// one state of all of them, not one in which calls end while it looks.
+		p.gb.pickMu.Lock()
 		scRef.streamsDecr()
+		p.gb.pickMu.Unlock()
 		p.detectUnresponsive(ctx, scRef, callStarted, info.Err)
 		if info.Err != nil {
 			return
@@ -172,7 +176,9 @@ func (p *gcpPicker) getAndIncrementSubConnRef(ctx context.Context, boundKey stri
 		if p.log.V(FINEST) {
 			p.log.Infof("picking SubConn for round-robin bind: %p", scRef.getSubConn())
 		}
+		p.gb.pickMu.Lock()
 		scRef.streamsIncr()
+		p.gb.pickMu.Unlock()
 		return scRef, nil
 	}
 
